@@ -83,6 +83,9 @@ def shuffle_pieces(rng, prog):
     return out
 
 
+MODE_TAG = {"discontiguous": "d", "assertz": "a", "callN": "c", "mi": "m"}
+
+
 def rename(t, old, new):
     """rename the generated predicates (prefix old -> new) everywhere, so that every mode has its own predicates"""
     if t[0] == "atom":
@@ -124,7 +127,7 @@ def split_calls(rng, g):
 
 def run(ctx):
     rng = ctx.rng
-    nprog = ctx.scale(500, 1500)
+    nprog = ctx.scale(500, 750)
     jobs, meta = [], {}
     dist = {"programs": 0, "cut_free_programs": 0, "mode_runs": {}, "dropped_impl": 0, "dropped_model": 0, "prefix_only_ambiguous_arith_error": 0}
     n = 0
@@ -177,6 +180,12 @@ def run(ctx):
             seen = {}
             for m in modes:
                 for path, o in sorted(obs["j%d%s" % (pn, m)][i].items()):
+                    # an answer may contain a goal term naming a predicate: undo the per-mode renaming before comparing
+                    tag = MODE_TAG.get(m)
+                    if tag and o[0] == "ok":
+                        old_, new_ = "j%d%s_" % (pn, tag), "j%d_" % pn
+                        o = ("ok", [rename(a, old_, new_) for a in o[1]], rename(o[2], old_, new_) if o[2] is not None else None,
+                             [rename(a, old_, new_) for a in o[3]]) + tuple(o[4:])
                     if o[0] == "panic":
                         k = repr(("panic", o[1][:40]))
                         if k not in seen:
